@@ -692,8 +692,8 @@ Definition step (c : cfg) (st : state) (o : op) : state * out * list event :=
       else
         let remb := if (0 <? size)%N then (st_remb st - size)%N else st_remb st in
         if fail_base then
-          (* base.NewFile failed: the file count is released, the bytes are not *)
-          finish (commit st w (st_files st) (st_raw st) (st_remf st) remb) (log w (EvBaseNew false)) (ORes 0 EInjected [])
+          (* base.NewFile failed: file count and bytes are released again *)
+          finish st (log w (EvBaseNew false)) (ORes 0 EInjected [])
         else
           let f := mkFile hole size [] size in
           finish (commit st w (set_nth (st_files st) slot (Some f)) (st_raw st) (st_remf st - 1)%N remb)
